@@ -117,6 +117,129 @@ def _full_date_regex(pat, flags_ascii):
     return got in want
 
 
+# ---------------------------------------------------------------------------------------------------------------- R13.5
+# email = "the strings containing an @".  The verdict expression is evaluated over the three position classes of the
+# first "@": absent / at index 0 / at index >= 1.  Numbers are intervals (lo, hi) with hi None = unbounded.
+_AT_CASES = ("absent", "first", "later")
+
+
+def _at_value(e, p, case, local, depth=0):
+    """-> ("bool", True|False|None) | ("int", lo, hi) | None (outside the fragment)."""
+    if depth > 6:
+        return None
+    if isinstance(e, ast.Name) and e.id in local and len(local[e.id]) == 1:
+        return _at_value(local[e.id][0], p, case, local, depth + 1)
+    if isinstance(e, ast.Constant) and isinstance(e.value, bool):
+        return ("bool", e.value)
+    if isinstance(e, ast.Constant) and isinstance(e.value, int):
+        return ("int", e.value, e.value)
+    if isinstance(e, ast.UnaryOp) and isinstance(e.op, ast.USub) and isinstance(e.operand, ast.Constant) and isinstance(e.operand.value, int):
+        return ("int", -e.operand.value, -e.operand.value)
+    if isinstance(e, ast.UnaryOp) and isinstance(e.op, ast.Not):
+        v = _at_truth(e.operand, p, case, local, depth + 1)
+        return ("bool", None if v is None else not v)
+    if isinstance(e, ast.BoolOp):
+        vs = [_at_truth(x, p, case, local, depth + 1) for x in e.values]
+        if isinstance(e.op, ast.And):
+            return ("bool", False if any(v is False for v in vs) else (True if all(v is True for v in vs) else None))
+        return ("bool", True if any(v is True for v in vs) else (False if all(v is False for v in vs) else None))
+    is_at = lambda x: isinstance(x, ast.Constant) and x.value == "@"
+    is_p = lambda x: isinstance(x, ast.Name) and x.id == p
+    if isinstance(e, ast.Compare) and len(e.ops) == 1:
+        op, l, r = e.ops[0], e.left, e.comparators[0]
+        if isinstance(op, (ast.In, ast.NotIn)) and is_at(l) and is_p(r):
+            v = case != "absent"
+            return ("bool", v if isinstance(op, ast.In) else not v)
+        a, b = _at_value(l, p, case, local, depth + 1), _at_value(r, p, case, local, depth + 1)
+        if a and b and a[0] == "int" and b[0] == "int":
+            (alo, ahi), (blo, bhi) = a[1:], b[1:]
+            inf = float("inf")
+            ahi = inf if ahi is None else ahi
+            bhi = inf if bhi is None else bhi
+            def tri(always, never):
+                return ("bool", True if always else (False if never else None))
+            if isinstance(op, ast.Gt):
+                return tri(alo > bhi, ahi <= blo)
+            if isinstance(op, ast.GtE):
+                return tri(alo >= bhi, ahi < blo)
+            if isinstance(op, ast.Lt):
+                return tri(ahi < blo, alo >= bhi)
+            if isinstance(op, ast.LtE):
+                return tri(ahi <= blo, alo > bhi)
+            if isinstance(op, ast.Eq):
+                return tri(alo == ahi == blo == bhi, ahi < blo or alo > bhi)
+            if isinstance(op, ast.NotEq):
+                return tri(ahi < blo or alo > bhi, alo == ahi == blo == bhi)
+        return None
+    if isinstance(e, ast.Call) and isinstance(e.func, ast.Attribute) and is_p(e.func.value) and len(e.args) == 1 and is_at(e.args[0]) and not e.keywords:
+        m = e.func.attr
+        table = {
+            "find": {"absent": (-1, -1), "first": (0, 0), "later": (1, None)},
+            "rfind": {"absent": (-1, -1), "first": (0, None), "later": (1, None)},
+            "count": {"absent": (0, 0), "first": (1, None), "later": (1, None)},
+        }
+        if m in table:
+            return ("int",) + table[m][case]
+        if m == "startswith":
+            return ("bool", case == "first")
+        return None
+    if isinstance(e, ast.Call) and isinstance(e.func, ast.Name) and e.func.id == "bool" and len(e.args) == 1:
+        return ("bool", _at_truth(e.args[0], p, case, local, depth + 1))
+    if isinstance(e, ast.Call) and isinstance(e.func, ast.Name) and e.func.id == "len" and len(e.args) == 1:
+        a = e.args[0]
+        if isinstance(a, ast.Call) and isinstance(a.func, ast.Attribute) and a.func.attr == "split" and is_p(a.func.value) and len(a.args) == 1 and is_at(a.args[0]):
+            return ("int", 1, 1) if case == "absent" else ("int", 2, None)
+    return None
+
+
+def _at_truth(e, p, case, local, depth=0):
+    v = _at_value(e, p, case, local, depth)
+    if v is None:
+        return None
+    if v[0] == "bool":
+        return v[1]
+    lo, hi = v[1], v[2]
+    if lo == hi == 0:
+        return False
+    if (lo is not None and lo > 0) or (hi is not None and hi < 0):
+        return True
+    return None
+
+
+def rule_email(ctx, entries, rid="R13.5"):
+    r = ctx.rule(rid, "email accepts exactly the strings containing an @, wherever the first @ stands (absent / index 0 / later)", floor=1)
+    seen = set()
+    for e in entries:
+        if not e.present or e.func in seen or not any(n in ("email", "idn-email") for n in e.names.values()):
+            continue
+        f = e.func
+        seen.add(f)
+        p = f.params[0]
+        cfg = cfg_of(f)
+        local = {}
+        for n in walk_body(f):
+            if isinstance(n, ast.Assign) and len(n.targets) == 1 and isinstance(n.targets[0], ast.Name):
+                local.setdefault(n.targets[0].id, []).append(n.value)
+        rets = [n for n in cfg.live if n.kind == "return" and not isinstance(n.ast.value, ast.Constant)]
+        if not rets:
+            r.fail("%s|constant-verdict" % f.qual, site(f), "the email verdict on strings is a constant")
+            continue
+        for rn in rets:
+            got = {c: _at_truth(rn.ast.value, p, c, local) for c in _AT_CASES}
+            want = {"absent": False, "first": True, "later": True}
+            wrong = [c for c in _AT_CASES if got[c] is not None and got[c] != want[c]]
+            if wrong:
+                r.fail("%s|at-position|%s" % (f.qual, ",".join(wrong)), site(f, rn.ast),
+                       "`%s` gives %s for a string whose first @ is %s: email is \"the strings containing an @\"" % (
+                           norm(rn.ast.value)[:60], got[wrong[0]], {"absent": "absent", "first": "at index 0", "later": "after index 0"}[wrong[0]]))
+            elif any(got[c] is None for c in _AT_CASES):
+                r.ok(site(f, rn.ast), "NOT DECIDED: `%s` is outside the comparison fragment" % norm(rn.ast.value)[:50])
+                r.note(site(f, rn.ast), "email verdict `%s` not decided (outside the find/count/in fragment)" % norm(rn.ast.value)[:60])
+            else:
+                r.ok(site(f, rn.ast), "`%s`: absent -> False, index 0 -> True, later -> True" % norm(rn.ast.value)[:50])
+    return r
+
+
 def run(ctx):
     prog = ctx.prog
     calls = calls_of(prog)
@@ -125,7 +248,7 @@ def run(ctx):
         "installed checker on an arbitrary string, computed from a callee exception model of ipaddress/datetime/re/idna, is "
         "contained in its declared `raises` (with the builtin exception hierarchy); R13.2 what a checker returns on the string "
         "path is a verdict (always-truthy delegate object or a boolean); R13.3 a checker that hands the string to a parser "
-        "known to accept a superset of the grammar must first check the shape; R13.4 ipv6 rejects zone ids. Not decided: "
+        "known to accept a superset of the grammar must first check the shape; R13.4 ipv6 rejects zone ids; R13.5 the email verdict evaluated over the three positions of the first @. Not decided: "
         "exactness of the standard library's ipv4/ipv6/date grammars on concrete strings.")
     ctx.assume("callee exception/grammar model in sa/model.py (ipaddress, datetime, re, idna) for the interpreter in use (3.12)")
     entries = format_registry(prog)
@@ -133,6 +256,7 @@ def run(ctx):
     r2 = ctx.rule("R13.2", "the value returned on the string path is a verdict: truthy for every accepted string, or a boolean", floor=6)
     r3 = ctx.rule("R13.3", "no checker hands the string to a parser that accepts a superset of its grammar without checking the shape first", floor=1)
     r4 = ctx.rule("R13.4", "ipv6 rejects zone identifiers", floor=1)
+    rule_email(ctx, entries)
     done = set()
     for e in entries:
         f = e.func
